@@ -4,6 +4,7 @@ CONSTANTS Normal = {"n1", "n2", "n3", "n4", "n5", "n6", "n7", "n8", "n9", "n10",
           Long = {"nL"}
           Empty = {"nE"}
           Keys = {1, 2, 3}
+          BadKeys = {7}
           EncodeOn = TRUE
           Devs = @DEVS@
 INVARIANTS TypeOK ResultsAgreeT Refines MemAgrees Confined InvalidNeverStored DevReport
